@@ -606,6 +606,9 @@ template<class T, class HF> struct Runner
                   // content that moved to another table (swap) is compared with where it came from
                   if (((c == "swp")||(c == "mva"))&&(t != u)&&((x == t)||(x == u))) ch = order_changed(before[(x==t)?u:t], birthBefore[(x==t)?u:t], ideal[x], birth[x]);
                   if ((c == "mvc")&&(t != u)&&(x == t)) ch = order_changed(before[u], birthBefore[u], ideal[x], birth[x]);
+                  // On the auto-sorting classes Put-with-position moves an existing entry twice (once to its sorted place when the
+                  // value is replaced, once to the requested place): a repositioning operation even when the net order is unchanged.
+                  if ((var != 'P')&&(x == t)&&((c == "paf")||(c == "pab")||(c == "pbf")||(c == "pbh")||(c == "pap"))) ch = true;
                   for (int i=0; i<NI; i++) if (trav[i].owner == x)
                   {
                      if (ch) trav[i].active = false;
